@@ -5,9 +5,18 @@ import math
 
 import common
 
+from props import fbd
+
 ID = "C18"
-LEAN_MODULES = ["QProps.C18"]
+LEAN_MODULES = ["QProps.C18", "QProps.C15f"]
 THEOREMS = [
+    # on the driver machine (QModel/FBDriver.lean): which configuration's committee every step's delta comes from
+    "FBD.afb_delta_current",
+    "FBD.afb_delta_current_after_edit",
+    "FBD.afb_delta_current_after_restart",
+    "FBD.afb_delta_current_after_attach",
+    "FBD.afb_delta_stale_without_validate",
+    "FBD.afb_delta_fallback_without_validate",
     "AFB.tanh_half_log_three",
     "AFB.exp_neg_log_two",
     "AFB.tanh_atanhHalf",
